@@ -141,6 +141,15 @@ pub struct Plan {
     /// true: the super-class provider (remapper construction) reads a healthy copy of the jar and only
     /// `remap` itself meets the faults; false: both read the faulty medium
     pub provider_healthy: bool,
+    /// sink phase (only when the jar medium carries no fault): the remapped jar is written out again.
+    /// route 0: `ParsedJar::write` (hook H3) into a simulated Write + Seek sink under `sink`;
+    /// route 1: `put_to_file` into a fresh file of the simulated directory, re-opened with `FileJar`;
+    /// route 2: `put_to_file` onto a full device (/dev/full); route 3: `put_to_file` below a directory that is
+    /// not there; route 4: `put_to_file` over an existing, longer file
+    #[serde(default)]
+    pub sink: Option<IoPlan>,
+    #[serde(default)]
+    pub sink_route: u8,
 }
 
 fn to_entries(p: &Plan) -> Vec<(String, EntryData)> {
@@ -434,6 +443,191 @@ fn push_dedup(out: &mut Vec<Violation>, seen: &mut BTreeSet<String>, v: Violatio
     }
 }
 
+// ------------------------------------------------------------------------------------------------
+// sink phase
+
+/// a `Write + Seek` handle on a `SimWriter` the harness keeps: `ParsedJar::write` consumes its sink and drops it on
+/// the error path, and what the sink holds must be observable either way
+struct SharedSink(std::sync::Arc<std::sync::Mutex<SimWriter>>);
+impl std::io::Write for SharedSink {
+    fn write(&mut self, buf: &[u8]) -> std::io::Result<usize> {
+        self.0.lock().unwrap_or_else(|e| e.into_inner()).write(buf)
+    }
+    fn flush(&mut self) -> std::io::Result<()> {
+        self.0.lock().unwrap_or_else(|e| e.into_inner()).flush()
+    }
+}
+impl std::io::Seek for SharedSink {
+    fn seek(&mut self, pos: std::io::SeekFrom) -> std::io::Result<u64> {
+        self.0.lock().unwrap_or_else(|e| e.into_inner()).seek(pos)
+    }
+}
+
+fn entries_via_dukebox(jar: &impl Jar) -> anyhow::Result<Vec<String>> {
+    use dukebox::storage::OpenedJar;
+    let opened = jar.open()?;
+    let names: Vec<String> = opened.names().map(|(_, n)| n.to_string()).collect();
+    Ok(names)
+}
+
+#[allow(clippy::too_many_arguments)]
+fn sink_phase(jar_bytes: &[u8], map: &MapSet, order: u64, sink: &IoPlan, route: u8, t0_entries: &[(String, EntryData)], obs: &mut Digest, st: &mut RunStats) -> Vec<Violation> {
+    let mut out = vec![];
+    let q: quill::tree::mappings::Mappings<2, Ns> = to_quill::<2>(map, if order == 0 { None } else { Some(Rng::new(order)) }.as_mut()).expect("mapping model admissible for quill");
+    let src = SimJar::new(jar_bytes.to_vec(), &IoPlan::plain());
+    let src2 = SimJar { data: src.data.clone(), plan: src.plan.clone(), agg: src.agg.clone() };
+    let _g = quiet::on();
+    let parsed = no_panic(|| -> anyhow::Result<_> {
+        let prov = src.get_super_classes_provider()?;
+        let remapper = q.remapper_b_first_to_second(&prov)?;
+        dukebox::remap::remap(src2, remapper)
+    });
+    drop(_g);
+    let parsed = match parsed {
+        Ok(Ok(p)) => p,
+        // T0 already judged this workload; a refusal or panic here was reported there
+        _ => return out,
+    };
+    let legal = sink.legal_only();
+    let judge_bytes = |bytes: &[u8], tier: &str, class: &str, what: &str, out: &mut Vec<Violation>| match open_entries(bytes) {
+        Ok(v) if v == t0_entries => {}
+        Ok(v) => {
+            let at = v.iter().zip(t0_entries).position(|(a, b)| a != b).unwrap_or(v.len().min(t0_entries.len()));
+            out.push(Violation::new(tier, class, format!("{what}.entries"), format!("the written jar differs from the to_mem jar at entry {at} ({} vs {} entries)", v.len(), t0_entries.len())));
+        }
+        Err(e) => out.push(Violation::new(tier, class, format!("{what}.reopen"), format!("the bytes the sink holds ({}) do not re-open as a jar: {e:#}", bytes.len()))),
+    };
+    match route {
+        0 => {
+            st.tier(if legal { "T1" } else { "T2" });
+            st.probe("sink.write");
+            let shared = std::sync::Arc::new(std::sync::Mutex::new(SimWriter::new(sink)));
+            let res = no_panic(|| parsed.verif_write(SharedSink(shared.clone())).map(|_| ()));
+            let w = shared.lock().unwrap_or_else(|e| e.into_inner());
+            st.io(&w.stats, Digest(w.log.0));
+            let fired = !w.stats.fired.is_empty() || w.any_error_returned;
+            let tier = if fired { "T2" } else { "T1" };
+            obs.u64(0x51);
+            let eintr = w.stats.eintrs > 0;
+            match res {
+                // a panic raised inside a dependency (zip's debug assertions, flate2) once the sink has failed or
+                // answered Interrupted is that crate's behaviour on a broken sink, which C07 does not speak about
+                Err(pm) if (fired || eintr) && pm.contains("/.cargo/registry/") => st.probe("sink.dependency_panic_on_broken_sink"),
+                Err(pm) => out.push(Violation::new(tier, "panic", format!("jar-write:{}", panic_path(&pm)), pm)),
+                Ok(Err(e)) => {
+                    obs.u64(2);
+                    if fired {
+                        st.probe("sink.err_after_fault");
+                        // the zip crate's error text is not an observation
+                    } else if eintr {
+                        // flate2's buffer dump does not retry Interrupted: a clean Err, outside /repo
+                        st.probe("sink.err_after_eintr");
+                    } else {
+                        out.push(Violation::new("T1", "schedule-dependence", "sink.result", format!("short writes alone made the jar writer fail: {e:#}")));
+                    }
+                }
+                Ok(Ok(())) => {
+                    obs.u64(1);
+                    obs.bytes(&crate::rng::fnv(w.accepted()).to_le_bytes());
+                    if fired {
+                        st.probe("sink.ok_after_fault");
+                        judge_bytes(w.accepted(), "T2", "writer-ok-with-incomplete-sink", "sink", &mut out);
+                    } else {
+                        judge_bytes(w.accepted(), "T1", "schedule-dependence", "sink", &mut out);
+                    }
+                }
+            }
+        }
+        1 | 3 | 4 => {
+            st.tier("T0");
+            let mut dir = crate::simdir::SimDir::new("c07");
+            let rel = if route == 3 { "missing/out.jar" } else { "out/out.jar" };
+            if route != 3 {
+                std::fs::create_dir_all(dir.join("out")).expect("simdir: mkdir");
+            }
+            if route == 4 {
+                // an older, longer file is already there
+                let approx: usize = t0_entries.iter().map(|(n, d)| 200 + 2 * n.len() + if let EntryData::File(b) = d { b.len() } else { 0 }).sum();
+                dir.create(rel, &vec![0x5a; 2 * approx + 4096]);
+                st.probe("sink.put_to_file.over_longer_file");
+            }
+            let path = dir.join(rel);
+            let res = no_panic(|| parsed.put_to_file(&path).map(|p| p.to_path_buf()));
+            dir.syscalls += 4;
+            obs.u64(0x52 + route as u64);
+            match (route, res) {
+                (_, Err(pm)) => out.push(Violation::new("T0", "panic", format!("put_to_file:{}", panic_path(&pm)), pm)),
+                (3, Ok(Err(_))) => {
+                    st.probe("sink.put_to_file.missing_parent_refused");
+                    if !dir.tree().is_empty() {
+                        out.push(Violation::new("T0", "residue-after-heal", "put_to_file.missing-parent", "a refused put_to_file left files behind"));
+                    }
+                }
+                (3, Ok(Ok(_))) => out.push(Violation::new("T0", "writer-ok-with-incomplete-sink", "put_to_file.missing-parent", "Ok although the target directory does not exist")),
+                (_, Ok(Err(e))) => out.push(Violation::new("T0", "refused-wellformed", "put_to_file", format!("{e:#}"))),
+                (_, Ok(Ok(stored))) => {
+                    st.probe("sink.put_to_file.ok");
+                    if stored != path {
+                        out.push(Violation::new("T0", "semantic-mismatch", "put_to_file.path", format!("stored to {stored:?}, asked for {path:?}")));
+                    }
+                    match std::fs::read(&stored) {
+                        Ok(bytes) => {
+                            obs.bytes(&crate::rng::fnv(&bytes).to_le_bytes());
+                            judge_bytes(&bytes, "T0", "invalid-output", "put_to_file", &mut out);
+                        }
+                        Err(e) => out.push(Violation::new("T0", "invalid-output", "put_to_file.file", format!("Ok, but the file cannot be read: {e}"))),
+                    }
+                    // and back in through the file-backed jar of the crate
+                    let fj = dukebox::storage::FileJar { path: stored.clone() };
+                    match no_panic(|| entries_via_dukebox(&fj)) {
+                        Ok(Ok(names)) => {
+                            let want: Vec<&String> = t0_entries.iter().map(|(n, _)| n).collect();
+                            if names.iter().collect::<Vec<_>>() != want {
+                                out.push(Violation::new("T0", "invalid-output", "put_to_file.filejar.names", format!("FileJar lists {names:?}, the to_mem jar {want:?}")));
+                            }
+                        }
+                        Ok(Err(e)) => out.push(Violation::new("T0", "invalid-output", "put_to_file.filejar.open", format!("{e:#}"))),
+                        Err(pm) => out.push(Violation::new("T0", "panic", format!("filejar:{}", panic_path(&pm)), pm)),
+                    }
+                    // the file vanishes / is torn after it was stored: FileJar must refuse, not panic
+                    if let Ok(bytes) = std::fs::read(&stored) {
+                        let cut = bytes.len() / 2;
+                        let _ = std::fs::write(&stored, &bytes[..cut]);
+                        match no_panic(|| entries_via_dukebox(&fj)) {
+                            Ok(Ok(names)) if cut < bytes.len() => out.push(Violation::new("T2", "reader-ok-with-wrong-data", "filejar.torn", format!("a jar file cut to {cut} of {} bytes opened with {} entries", bytes.len(), names.len()))),
+                            Ok(_) => st.probe("sink.filejar.torn_refused"),
+                            Err(pm) => out.push(Violation::new("T2", "panic", format!("filejar-torn:{}", panic_path(&pm)), pm)),
+                        }
+                        let _ = std::fs::remove_file(&stored);
+                        match no_panic(|| entries_via_dukebox(&fj)) {
+                            Ok(Ok(_)) => out.push(Violation::new("T2", "reader-ok-with-wrong-data", "filejar.vanished", "a jar file that is gone opened")),
+                            Ok(Err(_)) => st.probe("sink.filejar.vanished_refused"),
+                            Err(pm) => out.push(Violation::new("T2", "panic", format!("filejar-vanished:{}", panic_path(&pm)), pm)),
+                        }
+                    }
+                }
+            }
+        }
+        _ => {
+            // a device that has no room at all (real ENOSPC from the kernel on the public route)
+            let full = std::path::Path::new("/dev/full");
+            if !full.exists() {
+                st.probe("sink.dev_full_unavailable");
+                return out;
+            }
+            st.tier("T2");
+            st.fired(&["enospc_dev_full"]);
+            obs.u64(0x5f);
+            match no_panic(|| parsed.put_to_file(full).map(|_| ())) {
+                Err(pm) => out.push(Violation::new("T2", "panic", format!("put_to_file:{}", panic_path(&pm)), pm)),
+                Ok(Err(_)) => st.probe("sink.put_to_file.dev_full_refused"),
+                Ok(Ok(())) => out.push(Violation::new("T2", "writer-ok-with-incomplete-sink", "put_to_file.dev-full", "Ok although the device accepted no byte")),
+            }
+        }
+    }
+    out
+}
+
 impl Engine for C07 {
     type Plan = Plan;
     fn id(&self) -> &'static str {
@@ -532,7 +726,7 @@ impl Engine for C07 {
             entries.extend(others);
             w.shuffle(&mut entries);
         }
-        let mut p = Plan { entries, deflate: w.chance(60), map: wl.map, map_order: if w.chance(30) { 0 } else { w.next() | 1 }, io: IoPlan::plain(), provider_healthy: false };
+        let mut p = Plan { entries, deflate: w.chance(60), map: wl.map, map_order: if w.chance(30) { 0 } else { w.next() | 1 }, io: IoPlan::plain(), provider_healthy: false, sink: None, sink_route: 0 };
         // ---- schedule and faults
         let mode = s.below(10);
         if mode >= 3 && (mode <= 5 || s.chance(50)) {
@@ -560,6 +754,38 @@ impl Engine for C07 {
                     _ => Fault::SeekFail { at_call: f.below(6 + 3 * p.entries.len() as u64) as u32 },
                 };
                 p.io.faults.push(fault);
+            }
+        }
+        // ---- sink phase: only when the source medium is healthy, so that one run has one fault story
+        if p.io.faults.is_empty() {
+            let mut k = rng.split("sink");
+            if k.chance(40) {
+                let approx: u64 = p.entries.iter().map(|e| 120 + 2 * e.name.len() as u64 + e.data.len() as u64).sum::<u64>() + 22;
+                let route = match k.below(10) {
+                    0..=5 => 0u8,
+                    6 => 1,
+                    7 => 2,
+                    8 => 3,
+                    _ => 4,
+                };
+                let mut io = if route == 0 && k.chance(70) { IoPlan::gen_legal(&mut k) } else { IoPlan::plain() };
+                if route == 0 && k.chance(60) {
+                    let fault = match k.below(10) {
+                        0..=4 => Fault::Enospc {
+                            after_bytes: match k.below(4) {
+                                0 => k.below(64),                                   // inside the first local header
+                                1 => approx.saturating_sub(k.below(160)),           // around the central directory / end record
+                                _ => k.below(approx + approx / 4 + 1),
+                            },
+                        },
+                        5 | 6 => Fault::WriteEio { at_call: k.below(8 + 12 * p.entries.len() as u64) as u32, sticky: k.chance(50) },
+                        7 | 8 => Fault::WriteZero { at_call: k.below(8 + 12 * p.entries.len() as u64) as u32 },
+                        _ => Fault::FlushErr,
+                    };
+                    io.faults.push(fault);
+                }
+                p.sink = Some(io);
+                p.sink_route = route;
             }
         }
         // debugging aid: VERIF_C07_DUMP_RUN=<run index> writes that run's plan as a replay file
@@ -729,6 +955,12 @@ impl Engine for C07 {
                 }
             }
         }
+        // ---------------- sink phase: the remapped jar written out through a simulated sink / onto the simulated disk
+        if let (Some(sink), true) = (&p.sink, p.io.faults.is_empty()) {
+            for v in sink_phase(&jar, &p.map, p.map_order, sink, p.sink_route, &t0_entries, &mut obs, st) {
+                push_dedup(&mut out, &mut seen, v);
+            }
+        }
         st.obs = obs;
         out
     }
@@ -739,6 +971,16 @@ impl Engine for C07 {
             let mut q = p.clone();
             q.io = io;
             c.push(q);
+        }
+        if let Some(sink) = &p.sink {
+            let mut q = p.clone();
+            q.sink = None;
+            c.push(q);
+            for io in shrink_io(sink).into_iter().take(12) {
+                let mut q = p.clone();
+                q.sink = Some(io);
+                c.push(q);
+            }
         }
         if p.provider_healthy && p.io.faults.is_empty() {
             let mut q = p.clone();
@@ -811,7 +1053,7 @@ impl Engine for C07 {
 
     fn size(&self, p: &Plan) -> (u64, u64) {
         let bytes: usize = p.entries.iter().map(|e| e.data.len()).sum();
-        ((p.entries.len() + p.map.count()) as u64 + bytes as u64 / 64, p.io.faults.len() as u64)
+        ((p.entries.len() + p.map.count()) as u64 + bytes as u64 / 64 + p.sink.is_some() as u64, (p.io.faults.len() + p.sink.as_ref().map_or(0, |s| s.faults.len())) as u64)
     }
     fn rule(&self) -> String {
         "one run = one jar (1-8 classes: refclass-generated classes re-pointed at each other / at classes outside the jar, plus javac corpus classes; non-class entries; directories; stored or deflated) x one two-namespace mapping set over those classes (partial, package moves, inner classes, members declared in / inherited from super types inside and outside the jar), turned into the REAL quill remapper_b over the REAL JarSuperProv x one medium schedule (chunk ceiling, short %, EINTR %) x 0-2 faults (EIO at call n / at offset, torn jar, flipped byte aimed at data / central directory / end record, seek failure; on both readers of the jar or on remap only); distinct by (workload shape digest, I/O event-log digest); a run is non-trivial when a short transfer, EINTR or fault actually fired".into()
@@ -827,14 +1069,14 @@ impl Engine for C07 {
             "every difference between output and reference is reported (component-wise, not first-only); a difference that duke's own read_class+write_class round trip of the same input class (no renaming) already shows at the same path is filed under `rw-loss.<path>` (owned by C01/C02; at the time of writing: parameter annotations dropped on read, an empty Record attribute lost), all others under `remap.<path>`; the classification is recomputed against the current tree in every run, so a duke repair moves a path from rw-loss to exact comparison automatically".into(),
             "mapping sets are injective on class names and never map two entries of a jar to one name; <init>/<clinit> are never renamed; hierarchies are acyclic".into(),
             "T2: Err is accepted; Ok on intact delivered bytes must equal the plain-medium output; Ok on altered delivered bytes is compared with the reference over the delivered bytes (output names then follow the ENTRY names), skipping paths already reported at T0 for the same workload; a delivered class the reference parser refuses is counted (lenient_accept) and class contents are then not compared".into(),
-            "no public API writes a ParsedJar to a caller-supplied Write+Seek sink (ParsedJar::write is private; to_mem writes to a Vec, put_to_file to a real file), so the sink side of DESIGN's C07 entry (hook H3) is not exercised".into(),
+            "sink phase (runs whose source medium carries no fault): route 0 = ParsedJar::write through hook H3 (dukebox feature verif) into a simulated Write+Seek sink - short writes must succeed, and any Ok must give a jar that re-opens to the to_mem entries (T1); an Err after an Interrupted answer is counted only (flate2's buffer dump does not retry it), as is a panic raised inside a dependency once the sink is broken (zip's debug assertions) - C07 does not speak about sinks, so only /repo's own conduct is judged; after ENOSPC / EIO / Ok(0) / flush error the writer may fail, and Ok means the sink holds a jar that re-opens to exactly those entries (T2); bytes that overwrite what the sink already holds need no room. routes 1-4 = the public put_to_file on the simulated directory (fresh file; /dev/full; missing parent directory; over an existing longer file), the stored file re-opened over a plain cursor and through dukebox FileJar, then torn and removed (FileJar must refuse). Jar bytes are only ever observed as entries (name, kind, content)".into(),
             "harness profile: opt-level 2 with overflow checks and debug assertions; stderr of /repo's remap (one eprintln per non-class entry / signature) is discarded while the real code runs".into(),
         ]
     }
     fn real_and_stub(&self) -> serde_json::Value {
         json!({
-            "real": ["dukebox::remap::remap", "dukebox::storage::{ParsedJar::to_mem, OpenedJar for ZipArchive<R>, Jar::get_super_classes_provider, ClassRepr}", "quill::tree::mappings::Mappings::remapper_b_first_to_second", "quill::remapper::{BRemapperImpl, JarSuperProv}", "duke::{read_class, read_class_multi, write_class}", "zip::ZipArchive over the simulated reader (central directory, inflate, CRC)"],
-            "stub": ["jar byte medium (SimJar / SimReader)", "zip crate assembling the input jar and re-opening the output jar over a plain cursor (trusted)"],
+            "real": ["dukebox::remap::remap", "dukebox::storage::{ParsedJar::to_mem, ParsedJar::write (hook H3), ParsedJar::put_to_file, FileJar::open, OpenedJar for ZipArchive<R>, Jar::get_super_classes_provider, ClassRepr}", "quill::tree::mappings::Mappings::remapper_b_first_to_second", "quill::remapper::{BRemapperImpl, JarSuperProv}", "duke::{read_class, read_class_multi, write_class}", "zip::ZipArchive over the simulated reader (central directory, inflate, CRC)"],
+            "stub": ["jar byte medium (SimJar / SimReader)", "jar sink (SimWriter with Seek; private tmpfs directory and /dev/full for put_to_file)", "zip crate assembling the input jar and re-opening the output jar over a plain cursor (trusted)"],
             "reference": ["refremap::{Rho, rename, rename_signature, all_diffs}", "refclass::{parse, validate, encode, gen_class}"]
         })
     }
@@ -862,6 +1104,14 @@ impl Engine for C07 {
             "t2.ok_on_altered_bytes",
             "io.eintr",
             "io.short_transfers",
+            "sink.write",
+            "sink.err_after_fault",
+            "sink.put_to_file.ok",
+            "sink.put_to_file.over_longer_file",
+            "sink.put_to_file.missing_parent_refused",
+            "sink.put_to_file.dev_full_refused",
+            "sink.filejar.torn_refused",
+            "sink.filejar.vanished_refused",
         ]);
         v
     }
